@@ -14,6 +14,7 @@ import Driver.OpsAgg
 import Driver.OpsConstruct
 import Driver.OpsRead
 import Driver.OpsConvert
+import Driver.OpsGeo
 
 open Lean DI DI.Codec
 
@@ -46,6 +47,9 @@ def dispatch (op : String) (a : Json) : Except String Json :=
   | some r => r
   | none =>
   match DI.Ops.convertOp op a with
+  | some r => r
+  | none =>
+  match DI.Ops.geoOp op a with
   | some r => r
   | none => .error s!"unknown op {op}"
 
